@@ -34,12 +34,6 @@ Definition strip_ws (l : list N) : list N :=
   filter (fun b => negb ((b =? 9)%N || (b =? 10)%N || (b =? 32)%N)) l.
 Definition str (l : list N) := l.
 
-(* "ttl:=c.initialTTLforgeneration:=uint32(1);generation<streak&&ttl<c.maxTTL;generation++{ifttl>c.maxTTL/2{returnc.maxTTL}ttl*=2}ifttl>c.maxTTL{returnc.maxTTL}returnttl" *)
-Definition backoff_source_expected : list N :=
-  [116;116;108;58;61;99;46;105;110;105;116;105;97;108;84;84;76;102;111;114;103;101;110;101;114;97;116;105;111;110;58;61;117;105;110;116;51;50;40;49;41;59;103;101;110;101;114;97;116;105;111;110;60;115;116;114;101;97;107;38;38;116;116;108;60;99;46;109;97;120;84;84;76;59;103;101;110;101;114;97;116;105;111;110;43;43;123;105;102;116;116;108;62;99;46;109;97;120;84;84;76;47;50;123;114;101;116;117;114;110;99;46;109;97;120;84;84;76;125;116;116;108;42;61;50;125;105;102;116;116;108;62;99;46;109;97;120;84;84;76;123;114;101;116;117;114;110;99;46;109;97;120;84;84;76;125;114;101;116;117;114;110;116;116;108]%N.
-Lemma gen_backoff_source : map strip_ws backoff_source = [backoff_source_expected].
-Proof. vm_compute. reflexivity. Qed.
-
 (* "ifnow.Sub(current.retryAfter)>=c.maxTTL{next.streak=1}elseifnext.streak<^uint32(0){next.streak++}" *)
 Definition record_streak_source_expected : list N :=
   [105;102;110;111;119;46;83;117;98;40;99;117;114;114;101;110;116;46;114;101;116;114;121;65;102;116;101;114;41;62;61;99;46;109;97;120;84;84;76;123;110;101;120;116;46;115;116;114;101;97;107;61;49;125;101;108;115;101;105;102;110;101;120;116;46;115;116;114;101;97;107;60;94;117;105;110;116;51;50;40;48;41;123;110;101;120;116;46;115;116;114;101;97;107;43;43;125]%N.
